@@ -214,3 +214,46 @@ Proof.
   rewrite relabel_comp. rewrite (relabel_ext _ (cid q) g Hw); [apply geq_refl|].
   intros v _. apply cid_map; auto.
 Qed.
+
+(* ---------------- clause 2 for a renaming that is only injective on the nodes of the view ---------------- *)
+Lemma kinds_ok_relabel f g : kinds_ok g -> kinds_ok (relabel f g).
+Proof. intros H p I. unfold relabel in I; simpl in I. apply in_map_iff in I. destruct I as (q & <- & I). apply (H q I). Qed.
+Lemma arcs_ok_relabel f g : arcs_ok g -> arcs_ok (relabel f g).
+Proof. intros H e I. unfold relabel in I; simpl in I. apply in_map_iff in I. destruct I as (q & <- & I). apply (H q I). Qed.
+Lemma kinds_ok_geq g h : geq g h -> kinds_ok g -> kinds_ok h.
+Proof. intros [H1 _] H p I. apply H. apply (Permutation_in _ (Permutation_sym H1) I). Qed.
+Lemma arcs_ok_geq g h : geq g h -> arcs_ok g -> arcs_ok h.
+Proof. intros [_ H2] H e I. apply H. apply (Permutation_in _ (Permutation_sym H2) I). Qed.
+
+Definition dbl (x : N) : N := (2 * x)%N.
+Definition ext_inj (l : list N) (f : N -> N) (x : N) : N := if memN x l then (2 * f x)%N else (2 * x + 1)%N.
+Lemma dbl_inj x y : dbl x = dbl y -> x = y.
+Proof. unfold dbl. lia. Qed.
+Lemma ext_inj_inj l f : inj_on f l -> forall x y, ext_inj l f x = ext_inj l f y -> x = y.
+Proof.
+  intros Hf x y. unfold ext_inj. destruct (memN x l) eqn:Ex, (memN y l) eqn:Ey; intros E; try lia.
+  apply memN_spec in Ex, Ey. apply Hf; auto. lia.
+Qed.
+
+Theorem canon_invariant_on f g g' lab p lab' p' :
+  inj_on f (node_ids g) -> wf g -> kinds_ok g -> arcs_ok g -> geq g' (relabel f g) ->
+  fst (canon_search g) = Some (lab, p) -> fst (canon_search g') = Some (lab', p') ->
+  lab' = lab /\ geq (canon_graph g' p') (canon_graph g p).
+Proof.
+  intros Hf Hw Hk Ha Hg Hb Hb'.
+  set (f2 := ext_inj (node_ids g) f).
+  set (gm := relabel f2 g).
+  assert (Egm : gm = relabel dbl (relabel f g)).
+  { unfold gm. rewrite relabel_comp. apply relabel_ext; auto. intros v Hv. unfold f2, ext_inj, dbl.
+    apply memN_spec in Hv. rewrite Hv. reflexivity. }
+  assert (Hwm : wf gm) by (apply wf_relabel; auto; intros x y _ _; apply ext_inj_inj; auto).
+  destruct (fst (canon_search gm)) as [[labm pm]|] eqn:Hbm; [|exfalso; apply (canon_found gm Hwm); auto].
+  destruct (canon_invariant f2 (ext_inj_inj _ f Hf) g gm lab p labm pm Hw Hk Ha (geq_refl _) Hb Hbm) as [E1 G1].
+  assert (Hwf : wf (relabel f g)) by (apply wf_relabel; auto).
+  assert (Hw' : wf g') by (apply (geq_wf (relabel f g)); [apply geq_sym; auto|auto]).
+  assert (Hk' : kinds_ok g') by (apply (kinds_ok_geq (relabel f g)); [apply geq_sym; auto|apply kinds_ok_relabel; auto]).
+  assert (Ha' : arcs_ok g') by (apply (arcs_ok_geq (relabel f g)); [apply geq_sym; auto|apply arcs_ok_relabel; auto]).
+  assert (Hgm : geq gm (relabel dbl g')) by (rewrite Egm; apply geq_relabel; apply geq_sym; auto).
+  destruct (canon_invariant dbl dbl_inj g' gm lab' p' labm pm Hw' Hk' Ha' Hgm Hb' Hbm) as [E2 G2].
+  split; [congruence|]. eapply geq_trans; [apply geq_sym; exact G2|exact G1].
+Qed.
